@@ -3,6 +3,7 @@ from fractions import Fraction
 from vp_common import *
 import vp_coq, kick_cases as kc
 import fp_cases as fc
+import round_cases as rnd
 
 
 def clear_of_border(n, it, o, row, margin=2):
@@ -64,7 +65,7 @@ def oracle_conservation(ctx, c, r):
             else:
                 s_in, s_out = sum(row), sum(out)
                 exact = c.stream in ("exact", "whole") and it < 4
-                tol = 0 if exact else Fraction(64, 2 ** 24) * sum(abs(v) for v in row) * Fraction(5, 4)
+                tol = 0 if exact else rnd.kick_tol(n, it, o, row, hyp)      # proved bound (C01_sm_row_kick_rounding) where it applies
                 bad = abs(s_out - s_in) > tol
             if bad:
                 jd, _ = kc.split(n, o)
@@ -86,7 +87,7 @@ def run(ctx):
                  "float (tolerance stream); table _hinfo compared entry by entry, then outputs; per non-empty interior column the plain "
                  "sum before/after apply() (tolerated: rounding, and e1*|in(k)| in the four switch rows of the 4-point stencil); "
                  "identity-matrix data give every column sum of the operator. Non-trivial: variant != none, e1 != 0.")
-    coq = vp_coq.full_check("C01", ctx, fams=("kick", "fp"))
+    coq = vp_coq.full_check("C01", ctx, fams=("kick", "fp", "round"))
     nk = 120 if ctx.quick() else 3000
     cases = kc.gen_cases(ctx, nk) + farshift_cases(ctx, 24 if ctx.quick() else 400)
     res = kc.run_cases(ctx, cases)
@@ -106,10 +107,14 @@ def run(ctx):
             dis.append(dict(case=c.replay(), detail=d[:3], sig=dict(kind="fp", stage="correspondence", dt=c.dt,
                                                                     variant=fc.VARIANTS[c.v])))
         fc.oracle_conservation(ctx, c, fres[c.cid])
+        rnd.fp3_oracle(ctx, c, fres[c.cid])      # 3-point step against the proved rounding term (C01_fp3_rounding_any_axis)
     ctx.sample(fcases[0].describe())
     ctx.sample(fcases[-1].describe())
     ctx.extra["correspondence_disagreements"] = len(dis)
-    ctx.assumptions += ["exact-arithmetic model; rounding handled by the exact/tolerance streams (DESIGN 3)"]
+    rnd.trusted(ctx)
+    ctx.assumptions += ["exact-arithmetic model; the rounding clause of the row kick and of the 3-point Fokker-Planck column is bounded by "
+                        "theorem (C01_sm_row_kick_rounding, C01_fp3_rounding_any_axis) and these bounds are the oracle tolerances; the "
+                        "model-vs-implementation comparison of whole outputs still uses the exact/tolerance streams (DESIGN 3)"]
     conclude(ctx, coq, dis)
 
 
